@@ -326,18 +326,18 @@ def doTrans (d : D) (toks : List String) (lineNo : Nat) : IO D := do
   let cs := d.cs
   if !cs.active then return d
   match toks with
-  | [_, rst, push, data, pc, pr, cut, pop, qc, qr, _, full, pvalid, psize, _, empty, qvalid, qsize, peek] =>
+  | [_, rst, push, data, pc, pr, cut, afl, pop, qc, qr, ael, _, full, pvalid, psize, af, _, empty, qvalid, qsize, ae, peek] =>
     let c := cs.cfg
     let e : TEv String := { rst := b rst, pushReq := b push, data := data, pushCommit := b pc, pushRollback := b pr, cutoff := cut.toNat!,
-                            popReq := b pop, popCommit := b qc, popRollback := b qr }
-    let oi : TOut String := { full := b full, pushValid := b pvalid, pushSize := binVal psize, empty := b empty, popValid := b qvalid,
-                              popSize := binVal qsize, peek := peek }
+                            afLevel := afl.toNat!, popReq := b pop, popCommit := b qc, popRollback := b qr, aeLevel := ael.toNat! }
+    let oi : TOut String := { full := b full, pushValid := b pvalid, pushSize := binVal psize, af := b af, empty := b empty, popValid := b qvalid,
+                              popSize := binVal qsize, ae := b ae, peek := peek }
     let mut d := { d with events := d.events + 1 }
     let mut cs := cs
     if cs.modelOk then
       let om := toutputs c cs.tst e
-      let sm := s!"{bs om.full} {bs om.pushValid} {bitsOf om.pushSize (c.k+1)} | {bs om.empty} {bs om.popValid} {bitsOf om.popSize (c.k+1)} {om.peek}"
-      let si := s!"{full} {pvalid} {psize} | {empty} {qvalid} {qsize} {peek}"
+      let sm := s!"{bs om.full} {bs om.pushValid} {bitsOf om.pushSize (c.k+1)} {bs om.af} | {bs om.empty} {bs om.popValid} {bitsOf om.popSize (c.k+1)} {bs om.ae} {om.peek}"
+      let si := s!"{full} {pvalid} {psize} {af} | {empty} {qvalid} {qsize} {ae} {peek}"
       if sm != si then
         IO.println s!"DIFF case={cs.id} line={lineNo} event={cs.events} what=trans-outputs model=[{sm}] impl=[{si}]"
         d := { d with diffs := d.diffs + 1 }
@@ -345,7 +345,7 @@ def doTrans (d : D) (toks : List String) (lineNo : Nat) : IO D := do
       else if !e.rst then
         cs := { cs with tst := tstep c cs.tst e }
     let q := cs.tq
-    let (viol, q') := if cs.specOk then tcheck c.N c.lw q e oi else ([], q)
+    let (viol, q') := if cs.specOk then tcheck c.N c.M c.lw q e oi else ([], q)
     for v in viol do
       IO.println s!"PROPFAIL case={cs.id} line={lineNo} event={cs.events} kind={v} committed={q.com.length} tentativePushed={q.tent.length} popCommitted={q.gc} popTentative={q.gt} N={c.N} lw={c.lw} ev=[{" ".intercalate toks}]"
       d := { d with propfails := d.propfails + 1 }
